@@ -580,7 +580,9 @@ def selftest(h, params, ctx0, seed, n=8):
     """Concrete runs on seeded valid inputs: obligations must hold on the real code with plain numbers,
     and the symbolic expressions built by the proxies, evaluated at the same inputs, must give the same
     numbers (validates proxies, shims and string model on exactly the code being claimed)."""
-    rng = random.Random(seed * 7919 + hash(h.name) % 1000)
+    import zlib
+
+    rng = random.Random(seed * 7919 + zlib.crc32((h.name + json.dumps(params, sort_keys=True, default=str)).encode()) % 100003)
     out = dict(vectors=0, rejected=0, compared=0, failures=[], violations=[])
     tries = 0
     while out["vectors"] < n and tries < 4 * n:
